@@ -144,6 +144,11 @@ def _const_bounds(b, tr, t):
     n = const_value(lo_['c']) if lo_['o'] == 'const' else None
     if isinstance(k, int) and isinstance(n, int) and 0 <= k < n:
         return 'constant index %d < constant length %d' % (k, n)
+    if isinstance(n, int) and FACTS[0] is not None:
+        from .C20 import enum_cast_bound
+        ed = enum_cast_bound(FACTS[0], tr, ix)
+        if ed is not None and 0 <= ed[0] and ed[1] < n:
+            return 'index = %s as usize, discriminants %d..=%d < constant length %d' % (ed[2], ed[0], ed[1], n)
     return None
 
 
